@@ -301,7 +301,15 @@ struct Sched {
     m: Mutex<SchedState>,
     cv: Condvar,
 }
-const STEP_LIMIT: Duration = Duration::from_secs(20);
+/// wall-clock limit for one grant (a thread that does not reach its next yield point in time
+/// is reported as a hang); C16_STEP_LIMIT_MS overrides it (scheduler self-test)
+fn step_limit() -> Duration {
+    static LIMIT: std::sync::OnceLock<Duration> = std::sync::OnceLock::new();
+    *LIMIT.get_or_init(|| {
+        let ms = std::env::var("C16_STEP_LIMIT_MS").ok().and_then(|v| v.parse().ok()).unwrap_or(60_000);
+        Duration::from_millis(ms)
+    })
+}
 
 impl Sched {
     fn new(n: usize) -> Arc<Self> {
@@ -339,7 +347,7 @@ impl Sched {
     }
     /// wait until no thread is running (all parked at a yield point or finished)
     fn quiesce(&self) -> bool {
-        let deadline = Instant::now() + STEP_LIMIT;
+        let deadline = Instant::now() + step_limit();
         let mut g = self.m.lock().unwrap();
         while g.st.iter().any(|s| *s == St::Running) {
             let now = Instant::now();
@@ -352,7 +360,7 @@ impl Sched {
     }
     /// grant one turn; Ok(false) = the thread had already finished (grant skipped)
     fn grant(&self, t: usize) -> Result<bool, ()> {
-        let deadline = Instant::now() + STEP_LIMIT;
+        let deadline = Instant::now() + step_limit();
         let mut g = self.m.lock().unwrap();
         if t >= g.st.len() || g.st[t] == St::Done {
             return Ok(false);
@@ -410,6 +418,20 @@ fn init_collector(init: &Value) -> Arc<dyn Coll> {
 /// Run the threads on a fresh collector under one forced schedule.
 /// Result: [snapshot, yields per thread per call]  (or ["hang"] / ["panic"])
 fn run_schedule(init: &Value, threads: &[Vec<Op>], sched: &[usize]) -> Value {
+    // A grant that times out is retried on a fresh collector with fresh threads: on a heavily
+    // loaded machine a thread can be stalled for a long time; a deadlock of the code under test
+    // hangs every attempt and is reported.
+    let mut r = json!(["hang"]);
+    for _ in 0..3 {
+        r = run_schedule_once(init, threads, sched);
+        if r != json!(["hang"]) {
+            break;
+        }
+    }
+    r
+}
+
+fn run_schedule_once(init: &Value, threads: &[Vec<Op>], sched: &[usize]) -> Value {
     let coll = init_collector(init);
     let n = threads.len();
     let sc = Sched::new(n);
@@ -458,7 +480,21 @@ fn run_schedule(init: &Value, threads: &[Vec<Op>], sched: &[usize]) -> Value {
         }
     }
     if !okay {
+        // release the parked threads, give them a moment, and leave them behind (joining a
+        // thread that is really stuck would hang the harness)
         sc.give_up();
+        let until = Instant::now() + Duration::from_secs(2);
+        while Instant::now() < until && !(0..n).all(|t| sc.done(t)) {
+            std::thread::sleep(Duration::from_millis(10));
+        }
+        let all_done = (0..n).all(|t| sc.done(t));
+        if all_done {
+            for h in handles {
+                let _ = h.join();
+            }
+        }
+        set_yield_hook(None);
+        return json!(["hang"]);
     }
     let mut yields = Vec::new();
     let mut any_panic = false;
@@ -472,9 +508,6 @@ fn run_schedule(init: &Value, threads: &[Vec<Op>], sched: &[usize]) -> Value {
         }
     }
     set_yield_hook(None);
-    if !okay {
-        return json!(["hang"]);
-    }
     if any_panic {
         return json!(["panic"]);
     }
@@ -817,7 +850,7 @@ fn generate(seed: u64, tier: Tier, em: &mut Emitter) {
     //    also 4 threads x 1..2 operations):
     //    (a) all increments on one counter, distinct powers of a base so that any lost update
     //        shows in the sum; (b..) seeded mixes of increment / set / register on 1-2 names
-    let mixes = if thorough { 8 } else { 2 };
+    let mixes = if thorough { 5 } else { 2 };
     let max_threads = if thorough { 4usize } else { 3 };
     for nthreads in 2..=max_threads {
         for shape in shapes(nthreads, if nthreads == 4 { 2 } else { 3 }) {
